@@ -46,7 +46,7 @@ def compare(e1, e2, names, timeout_ms=10000, precheck_only=False):
         return {"verdict": "ok"}
     dec = Decider(world.constraints, timeout_ms)
     verdict, model, dt = differ_any(dec, pairs)
-    out = {"verdict": verdict, "secs": dt, "n_envs": len(envs)}
+    out = {"verdict": verdict, "secs": dt, "n_envs": len(envs), "cross_world": world.used_cw}
     if verdict == "sat":
         cands = [world.model_to_params(model)] + [grid_params(world.params, s) for s in range(6)]
         for params in cands:
